@@ -1038,3 +1038,140 @@ func (g *rGen) reachedViolation() bool {
 	}
 	return true
 }
+
+// ---------------------------------------------------------------------------
+// fuzz stream (C07): arbitrary / mutated byte strings as the peer's stream. The model predicts the
+// exact outcome (incl. "panic"); the oracle checks no panic, no hang, proportional allocation.
+// ---------------------------------------------------------------------------
+
+func runFuzzScenario(seed int64) *scenario {
+	r := rand.New(rand.NewSource(seed))
+	sc := &scenario{kind: "rfuzz", seed: seed}
+	g := &rGen{rng: r, sc: sc, log: &evlog{}, opt: rOpts{mode: "conform", smallOnly: true, handlers: r.Intn(2) == 0}}
+	ks := &keySource{keys: []byte{9, 8, 7, 6}}
+	restore := websocket.VerifSetMaskRand(ks)
+	defer restore()
+	sc.emit("reset keys="+hx(ks.keys)+" caps="+readAllCapsStr, "ok")
+	// build a conformant stream, then damage it
+	g.srv = r.Intn(2) == 0
+	g.nego = false
+	g.rbuf = rbufChoices[r.Intn(len(rbufChoices))]
+	g.build()
+	b := append([]byte(nil), g.stream...)
+	switch r.Intn(7) {
+	case 0: // pure noise
+		b = make([]byte, r.Intn(300))
+		r.Read(b)
+	case 1: // bit flips
+		for i := 0; i < 1+r.Intn(4) && len(b) > 0; i++ {
+			b[r.Intn(len(b))] ^= 1 << uint(r.Intn(8))
+		}
+	case 2: // random header bytes at frame starts
+		for _, f := range g.frames {
+			if r.Intn(3) == 0 && f.start+1 < len(b) {
+				b[f.start] = byte(r.Intn(256))
+				b[f.start+1] = byte(r.Intn(256))
+			}
+		}
+	case 3: // huge declared lengths
+		if len(b) >= 2 {
+			i := 0
+			if len(g.frames) > 0 {
+				i = g.frames[r.Intn(len(g.frames))].start
+			}
+			hdr := []byte{b[i], b[i+1]&0x80 | 127}
+			var l [8]byte
+			switch r.Intn(4) {
+			case 0:
+				l = [8]byte{0x7f, 0xff, 0xff, 0xff, 0xff, 0xff, 0xff, 0xff}
+			case 1:
+				l = [8]byte{0x80, 0, 0, 0, 0, 0, 0, 0}
+			case 2:
+				l = [8]byte{0, 0, 0, 1, 0, 0, 0, 0}
+			default:
+				r.Read(l[:])
+			}
+			b = append(append(append([]byte(nil), b[:i]...), append(hdr, l[:]...)...), b[i+2:]...)
+		}
+	case 4: // truncation
+		if len(b) > 0 {
+			b = b[:r.Intn(len(b))]
+		}
+	case 5: // insertion of noise
+		if len(b) > 0 {
+			i := r.Intn(len(b))
+			n := make([]byte, 1+r.Intn(10))
+			r.Read(n)
+			b = append(append(append([]byte(nil), b[:i]...), n...), b[i:]...)
+		}
+	}
+	g.stream = b
+	g.frames = nil
+	g.cut = len(b)
+	g.t = newTConn(g.log)
+	g.t.chunks = g.chunking(append([]byte(nil), b...))
+	limit := int64(0)
+	if r.Intn(3) == 0 {
+		limit = int64(1 + r.Intn(600))
+	}
+	g.c = websocket.VerifNewConn(g.t, g.srv, g.rbuf, 64, nil, nil, nil)
+	if limit > 0 {
+		g.c.SetReadLimit(limit)
+	}
+	logDefaultHandlers(g.c, g.log)
+	line := fmt.Sprintf("conn c0 srv=%d wbuf=64 pool=0 nego=0 rbuf=%d", b2i(g.srv), g.rbuf)
+	if limit > 0 {
+		line += fmt.Sprintf(" limit=%d", limit)
+	}
+	sc.emit(line, "ok")
+	var parts []string
+	for _, c := range g.t.chunks {
+		parts = append(parts, hx(c))
+	}
+	cs := strings.Join(parts, ",")
+	if cs == "" {
+		cs = "-"
+	}
+	sc.emit(fmt.Sprintf("feed c0 %s term=eof tog=0", cs), "ok")
+	var ms0, ms1 runtimeMem
+	ms0.read()
+	delivered := 0
+	for i := 0; i < 30; i++ {
+		var t int
+		var p []byte
+		var err error
+		pan := ""
+		func() {
+			defer func() {
+				if x := recover(); x != nil {
+					pan = fmt.Sprint(x)
+				}
+			}()
+			t, p, err = g.c.ReadMessage()
+		}()
+		if pan != "" {
+			sc.emit("rm c0", g.line("panic"))
+			sc.violate("ReadMessage panicked on network input: %s", pan)
+			break
+		}
+		delivered += len(p)
+		if err != nil {
+			if t > 0 {
+				sc.emit("rm c0", g.line(fmt.Sprintf("err %s %d %s", errName(err), t, hx(p))))
+			} else {
+				sc.emit("rm c0", g.line("err "+errName(err)))
+			}
+			break
+		}
+		sc.emit("rm c0", g.line(fmt.Sprintf("ok %d %s", t, hx(p))))
+	}
+	ms1.read()
+	if delivered > len(b) {
+		sc.violate("delivered %d payload bytes from a %d-byte stream", delivered, len(b))
+	}
+	if d := ms1.total - ms0.total; d > uint64(64*len(b)+(1<<20)) {
+		sc.violate("receiving a %d-byte stream allocated %d bytes", len(b), d)
+	}
+	sc.emit("wire c0", "ok "+hx(g.t.wire))
+	return sc
+}
